@@ -452,6 +452,32 @@ def probe(ctx):
         if final is None or not close(c.final, final, 1e-10):
             ctx.fail('MeasureGate:state', 'state after the circuit is not the projected state propagated through the remaining gates', rp); continue
         ctx.probe_ok(('probe',) + c.ntkey)
+    probe_choice_contract(ctx)
+
+
+def probe_choice_contract(ctx):
+    """the contract the theorem `outcome_has_nonzero_probability` rests on, probed on numpy itself: `Generator.choice(k, p=p)`
+    never returns an index with p = 0"""
+    rng = np.random.default_rng(ctx.np_seed + 7)
+    bad = None
+    trials = 300 if ctx.quick() else 3000
+    for it in range(trials):
+        k = int(rng.integers(2, 17))
+        p = rng.random(k) * (rng.integers(0, 3, size=k) == 0)
+        if p.sum() == 0:
+            p[int(rng.integers(0, k))] = 1.0
+        if it % 3 == 0:
+            p[int(np.argmax(p))] += 1e-300       # denormal-scale perturbations keep the zeros exact
+        p = p / p.sum()
+        for seed in range(4):
+            i = int(np.random.default_rng(1000 * it + seed).choice(k, p=p))
+            if p[i] <= 0:
+                bad = (p.tolist(), 1000 * it + seed, i)
+    if bad is not None:
+        ctx.fail('numpy-choice-contract', 'Generator.choice returned an index of probability 0', dict(fn='numpy.random.Generator.choice', p=bad[0], seed=bad[1], index=bad[2]))
+    else:
+        ctx.probe_ok(('choice-contract', trials))
+    ctx.count('choice-contract-draws', 4 * trials)
 
 
 def search(ctx, hints):
